@@ -116,10 +116,6 @@ func addDecimals(receiver object.Object, objType object.ObjectType, args ...obje
 		val = receiver.(*object.Int).String()
 	}
 
-	if !utils.StrIsInt(val) {
-		return &object.Str{Value: val}, nil
-	}
-
 	separator := "."
 	decimals := 2
 
@@ -148,6 +144,12 @@ func addDecimals(receiver object.Object, objType object.ObjectType, args ...obje
 		}
 
 		decimals = int(decimalArg.Value)
+	}
+
+	// a value that is not a whole number stays as it is, after the
+	// arguments were found to be of the right kinds
+	if !utils.StrIsInt(val) {
+		return &object.Str{Value: val}, nil
 	}
 
 	// zero or a negative number of decimals leaves the value as it is
